@@ -10,5 +10,5 @@ Separate Extraction
   crop_stts crop_stss crop_ctts crop_stsc crop_stsc_pinned crop_stsz crop_sdtp update_stco update_co64
   find_end_time find_end_time_pinned find_trak_end fill_loop fill_fuel
   update_chunk_offsets update_chunk_offsets_h shift_stco_pinned shift_delta write_upto_mdat_durs ranges_size write_mdat
-  crop_mp4 crop_mp4_file find_sync_trak stbl_var_size size_without_mdat trak_h C08Model.mdat_mem C08Model.mdat_lazy
+  crop_mp4 crop_mp4_file crop_mp4_all find_sync_trak stbl_var_size size_without_mdat trak_h C08Model.mdat_mem C08Model.mdat_lazy
   consistent.
